@@ -129,7 +129,7 @@ namespace xtl
         using value_type = typename base_type::value_type;
         using size_type = typename base_type::size_type;
 
-        xcomplex_array() = default;
+        xcomplex_array();
         xcomplex_array(size_type s);
         xcomplex_array(size_type s, const value_type& v);
 
@@ -438,6 +438,12 @@ namespace xtl
     /*********************************
      * xcomplex_array implementation *
      *********************************/
+
+    template <class T, std::size_t N, bool B>
+    inline xcomplex_array<T, N, B>::xcomplex_array()
+        : base_type(N)
+    {
+    }
 
     template <class T, std::size_t N, bool B>
     inline xcomplex_array<T, N, B>::xcomplex_array(size_type s)
